@@ -1,9 +1,76 @@
 import OdcGeo.Model.C03
 namespace OdcGeo.C03.Drv
-open OdcGeo OdcGeo.IO
+open OdcGeo OdcGeo.IO OdcGeo.C17 OdcGeo.C03
+
+def fmtNS (s : NSlice) : String := s!"{s.start}:{s.stop}"
+def fmtROI (r : ROI) : String := s!"{fmtNS r.1} {fmtNS r.2}"
+
+/-- exact square root of a non-negative rational, when it is rational -/
+def ratSqrt? (q : Rat) : Option Rat :=
+  if q < 0 then none
+  else
+    let n := q.num.toNat
+    let d := q.den
+    let rn := Nat.sqrt n
+    let rd := Nat.sqrt d
+    if rn * rn = n ∧ rd * rd = d then some (mkRat rn rd) else none
+
+def rootOf (A : Aff) : Option Rat := ratSqrt? (A.a * A.a + A.d * A.d)
+
+def fmtPlan (p : Plan) : String :=
+  s!"{fmtROI p.roiSrc} {fmtROI p.roiDst} {fmtBool p.pasteOk} {p.readShrink} {fmtRat p.scale} {fmtRat p.scale2.1} {fmtRat p.scale2.2}"
 
 def run (args : List String) : Option String :=
   match args with
+  | ["axis", ns, nd, s, t] => do
+    let ns ← parseInt? ns; let nd ← parseInt? nd; let s ← parseRat? s; let t ← parseRat? t
+    pure (fmtRes (fun (a, b) => s!"{fmtNS a} {fmtNS b}") (axisOverlap ns nd s t))
+  | ["box", sny, snx, dny, dnx, st] => do
+    let sny ← parseInt? sny; let snx ← parseInt? snx; let dny ← parseInt? dny; let dnx ← parseInt? dnx
+    let st ← parseAff? st
+    pure (fmtRes (fun (a, b) => s!"{fmtROI a} {fmtROI b}") (boxOverlap (sny, snx) (dny, dnx) st))
+  | ["pick", sc, tol] => do
+    let sc ← parseRat? sc; let tol ← parseRat? tol
+    pure (fmtRes fmtInt (pickReadScale sc tol))
+  | ["scale2", a] => do
+    let a ← parseAff? a
+    match rootOf a with
+    | none => pure "irr"
+    | some n => if n = 0 then pure "zero" else
+      let s := scale2 a n
+      pure s!"{fmtRat s.1} {fmtRat s.2}"
+  | ["bnd", y0, y1, x0, x1, pps] => do
+    let y0 ← parseInt? y0; let y1 ← parseInt? y1; let x0 ← parseInt? x0; let x1 ← parseInt? x1
+    let pps ← parseNat? pps
+    pure (fmtList (fun (p : Rat × Rat) => s!"{fmtRat p.1};{fmtRat p.2}") (roiBoundary (⟨y0, y1⟩, ⟨x0, x1⟩) pps))
+  | ["plan", sny, snx, dny, dnx, sA, dA, ttol, stol, pad, al] => do
+    let sny ← parseInt? sny; let snx ← parseInt? snx; let dny ← parseInt? dny; let dnx ← parseInt? dnx
+    let sA ← parseAff? sA; let dA ← parseAff? dA
+    let ttol ← parseRat? ttol; let stol ← parseRat? stol
+    let pad ← parseOpt? parseInt? pad; let al ← parseOpt? parseInt? al
+    -- the root of a² + d² of the dst→src transform
+    match dA.inv? with
+    | .error e => pure e.toStr
+    | .ok di =>
+      match (di * sA).inv? with
+      | .error e => pure e.toStr
+      | .ok A =>
+        match rootOf A with
+        | none => pure "irr"
+        | some n => pure (fmtRes fmtPlan (reprojectGeoBoxes (sny, snx) (dny, dnx) sA dA n ttol stol pad al))
+  | ["relrois", sny, snx, dny, dnx, sA, dA, pad, al, pps] => do
+    let sny ← parseInt? sny; let snx ← parseInt? snx; let dny ← parseInt? dny; let dnx ← parseInt? dnx
+    let sA ← parseAff? sA; let dA ← parseAff? dA
+    let pad ← parseInt? pad; let al ← parseOpt? parseInt? al; let pps ← parseNat? pps
+    match dA.inv? with
+    | .error e => pure e.toStr
+    | .ok di =>
+      let fwd := di * sA
+      match fwd.inv? with
+      | .error e => pure e.toStr
+      | .ok A =>
+        let r := relativeRois (sny, snx) (dny, dnx) (linTr A) (linTr fwd) pps pad al
+        pure s!"{fmtROI r.1} {fmtROI r.2}"
   | _ => none
 
 end OdcGeo.C03.Drv
